@@ -42,9 +42,10 @@ Definition top_label (T : thread) : option label :=
 
 Section Replay.
 Variable loads : label -> list label.
+Variable bad : label -> bool.
 
 Definition expect (s : state) (tid : nat) (e : event) : option state :=
-  match step_ev loads s tid with
+  match step_ev loads bad s tid with
   | Some (s', e') => if event_eqb e e' then Some s' else None
   | None => None
   end.
@@ -99,6 +100,7 @@ Definition subset (a b : list label) : bool := forallb (fun x => memb x b) a.
 Record case := mkCase {
   c_graph : list (label * list label);
   c_roots : list label;
+  c_bad : list label;          (* modules that fail by themselves (their graph entry = the loads run before that) *)
   c_log : list (nat * lev);
   c_ok : bool;                 (* Load returned nil *)
   c_execs : list label         (* labels with a ModuleLoading event *)
@@ -108,7 +110,7 @@ Record case := mkCase {
     result differs; 100002 = executed set differs *)
 Definition check_case (c : case) : N :=
   let loads := loads_of (c_graph c) in
-  match replay loads (init (c_roots c)) (c_log c) 0 with
+  match replay loads (fun m => memb m (c_bad c)) (init (c_roots c)) (c_log c) 0 with
   | inr k => N.of_nat (S k)
   | inl s =>
       if negb (finalb s) then 100000%N
@@ -128,15 +130,15 @@ Definition verdicts (cs : list (N * case)) : list N :=
 (** exhaustive exploration of every schedule (tiny configurations only): [all_runs fuel P s] holds iff every
     maximal run from [s] ends within [fuel] steps in a final state satisfying P (a stuck non-final state, i.e. a
     deadlock, makes it false). *)
-Fixpoint all_runs (loads : label -> list label) (fuel : nat) (P : state -> bool) (s : state) : bool :=
+Fixpoint all_runs (loads : label -> list label) (bad : label -> bool) (fuel : nat) (P : state -> bool) (s : state) : bool :=
   match fuel with
   | 0 => false
   | S f =>
-      let succs := flat_map (fun tid => match step loads s tid with Some s' => [s'] | None => [] end)
+      let succs := flat_map (fun tid => match step loads bad s tid with Some s' => [s'] | None => [] end)
                             (seq 0 (nthr s)) in
       match succs with
       | [] => finalb s && P s
-      | _ => forallb (all_runs loads f P) succs
+      | _ => forallb (all_runs loads bad f P) succs
       end
   end.
 
